@@ -13,7 +13,7 @@ from props import c17_oracle as orc
 
 FUNCS = ['padstring', 'int_to_chars', 'uniqstring', 'fix_blockname', 'unfix_blockname', 'valid_blockname', 'new_dict_key']
 METHODS = ['column_name', 'layer_name', 'node_col_name_from_number', 'column_name_from_number',
-           'node_name_from_number', 'layer_name_from_number', 'block_name']
+           'node_name_from_number', 'layer_name_from_number', 'block_name', 'new_node_name', 'new_column_name']
 
 
 def translate(ctx):
@@ -25,15 +25,32 @@ def translate(ctx):
             warnings.simplefilter('ignore', SyntaxWarning)
             t = c17t.LoopTranslator(os.path.join(ctx.repo, 'mulgrids.py'))
         for f in FUNCS: t.translate(f)
+        # fix_block_mapping works by mutating its argument: the functional model returns the final dictionary
+        t.synthetic[(None, 'fix_block_mapping')] = c17t.returning_argument(t, 'fix_block_mapping', 'blockmap')
+        t.translate('fix_block_mapping')
         for f in METHODS: t.translate(f, cls='mulgrid')
         fn, dropped, params = c17t.slice_add_layers(t)
         t.synthetic[('mulgrid', 'add_layers')] = fn
         t.translate('add_layers', cls='mulgrid')
+        # rectangular(): backward slice on the character set names are generated from
+        fn_r, params_r = c17t.slice_chars_of(t, 'rectangular', 'mulgrid', 'chars')
+        t.synthetic[('mulgrid', 'rectangular')] = fn_r
+        t.translate('rectangular', cls='mulgrid')
+        # refine_layers(): name-deciding slice over the list of layer names
+        fn_l, params_l = c17t.slice_refine_layers(t, params)
+        t.synthetic[('mulgrid', 'refine_layers')] = fn_l
+        t.translate('refine_layers', cls='mulgrid')
         tbl_text, tbl = c17t.tables(t)
-        note = '(* name-deciding slice of mulgrid.add_layers (dropped elevation variables: %s):\n%s\n*)\n' % (
-            ', '.join(dropped), ast.unparse(fn).replace('*)', '* )'))
-        ctx.gen('GenNames', pyfun.HEADER + t.text() + '\n' + note + tbl_text)
+        note = ''.join('(* %s:\n%s\n*)\n' % (title, ast.unparse(f).replace('*)', '* )')) for title, f in (
+            ('name-deciding slice of mulgrid.add_layers (dropped elevation variables: %s)' % ', '.join(dropped), fn),
+            ('slice of mulgrid.rectangular on chars', fn_r), ('name-deciding slice of mulgrid.refine_layers over the layer-name list names_', fn_l)))
+        ctx.gen('GenNames', pyfun.HEADER + 'From P Require Import PyExt.\n\n' + t.text() + '\n' + note + tbl_text)
         ctx.extra['add_layers_slice'] = {'dropped_variables': dropped, 'parameters': params}
+        ctx.extra['rectangular_chars_slice'] = {'parameters': params_r}
+        ctx.extra['refine_layers_slice'] = {'parameters': params_l}
+        if params_r != ['case', 'chars'] or params_l != ['names_', 'chars', 'spaces', 'thicknesses']:
+            ctx.refusal('slices', 'unexpected parameter lists %r %r (the driver passes case, chars / names_, chars, spaces, thicknesses)' % (params_r, params_l))
+            return False
         if params != ['thicknesses', 'justify', 'chars', 'spaces']:
             ctx.refusal('add_layers slice', 'unexpected parameter list %r (the driver passes thicknesses, justify, chars, spaces)' % (params,))
             return False
@@ -50,7 +67,9 @@ def enc(v):
     if isinstance(v, str): return 'S:' + vf.hexs(v)
     if v is str.rjust: return 'F:r'
     if v is str.ljust: return 'F:l'
+    if isinstance(v, dict) and v and all(isinstance(x, str) for x in v.values()): return 'M:' + ','.join(vf.hexs(k) + '=' + vf.hexs(x) for k, x in v.items())
     if isinstance(v, dict): return 'D:' + ','.join(vf.hexs(k) for k in v)
+    if isinstance(v, list) and v and all(isinstance(x, str) for x in v): return 'SL:' + ','.join(vf.hexs(x) for x in v)
     if isinstance(v, list): return 'L:%d' % len(v)
     raise ValueError(v)
 
@@ -63,13 +82,14 @@ def impl(f, *a):
     if r is True or r is False: return 'B %d' % r
     if isinstance(r, str): return 'S ' + vf.hexs(r)
     if isinstance(r, int): return 'I %d' % r
+    return show(r)
+
+
+def show(r):
+    if isinstance(r, str): return 'S ' + vf.hexs(r)
+    if isinstance(r, int) and not isinstance(r, bool): return 'I %d' % r
     if isinstance(r, (tuple, list)):
-        items = []
-        for x in r:
-            if isinstance(x, str): items.append('S ' + vf.hexs(x))
-            elif isinstance(x, int) and not isinstance(x, bool): items.append('I %d' % x)
-            else: return '? ' + repr(r)
-        return ('T[' if isinstance(r, tuple) else 'L[') + ''.join(i + ',' for i in items) + ']'
+        return ('T[' if isinstance(r, tuple) else 'L[') + ''.join(show(x) + ',' for x in r) + ']'
     return '? ' + repr(r)
 
 
@@ -149,6 +169,76 @@ def cases(ctx):
                     for n in counts + [rng.randint(0, 140)] + ([702, 703, 1208, 1209, 1210] if (conv == 1 and justify == 'r' and len(chars) == 26) else []) + \
                             ([675, 676, 677, 704] if (conv == 2 and justify == 'l' and len(chars) == 26) else []):
                         add('addlay', [conv, geos[conv].layername_length, [0] * n, justify, chars, sp], layer_names, [conv, n, justify, chars, sp])
+    # ---- round 4 ----
+    lo, up = string.ascii_lowercase, string.ascii_uppercase
+    def name5(pool='ab1 5'): return ''.join(rng.choice(pool) for _ in range(5))
+    # block_name with a block mapping (sometimes holding the plain name)
+    for conv, geo in geos.items():
+        for _ in range(150):
+            lay = ''.join(rng.choice('ab 12') for _ in range(geo.layername_length))
+            col = ''.join(rng.choice('xy 34') for _ in range(geo.colname_length))
+            bm = {name5('xyab 1234'): name5() for _k in range(rng.randint(1, 4))}
+            if rng.random() < 0.6: bm[geo.block_name(lay, col)] = name5('zZ 09')
+            add('blkmap', [conv, lay, col, bm], lambda l, c, m, g=geo: g.block_name(l, c, dict(m)), [lay, col, bm])
+    # new_node_name / new_column_name on dictionaries with holes (fuel |d| + 2)
+    def new_name(what, conv, keys, istart, jf, chars, sp):
+        g = mg.mulgrid(convention=conv)
+        if what == 'newnode': g.node = dict.fromkeys(keys); return g.new_node_name(istart, jf, chars, sp)
+        g.column = dict.fromkeys(keys); return g.new_column_name(istart, jf, chars, sp)
+    for conv, geo in geos.items():
+        for what in ('newnode', 'newcol'):
+            for chars in ('ab', 'abc', lo):
+                for sp in (True, False):
+                    for jf in (str.rjust, str.ljust):
+                        for _ in range(3 if not ctx.thorough else 12):
+                            L = geo.colname_length
+                            m = rng.choice([0, 1, 2, 5, 6, 13, 14, 40])
+                            keys = [jf(mg.int_to_chars(i, chars=chars, spaces=sp, length=L), L) for i in range(1, m + 1)]
+                            for _h in range(rng.choice([0, 0, 1, 2])):
+                                if keys: keys.pop(rng.randrange(len(keys)))
+                            istart = rng.choice([0, 0, 1, m // 2, m])
+                            add(what, [dict.fromkeys(keys), L, istart, jf, chars, sp], new_name, [what, conv, keys, istart, jf, chars, sp])
+    # rectangular(): the alphabet its names are generated from, read off the single-character node names
+    def rect_alphabet(case, chars):
+        nx = (len(set(chars)) + 2) // 2          # enough nodes to see every character once, few enough for a 2-character alphabet
+        g = mg.mulgrid().rectangular([1.] * nx, [1.], [1.], convention=0, case=case, chars=chars)
+        out = []
+        for n in g.nodelist:
+            if len(n.name.strip()) != 1: break
+            out.append(n.name.strip())
+        return ''.join(out)
+    for case in (None, 'l', 'u', 'x'):
+        for chars in (lo, up, lo + up, up + lo, 'abAB', 'aAbBcC', 'aabbcc', 'XYZxyz', 'q', 'Qq') + tuple(''.join(rng.choice('abcABCxyzXYZ') for _ in range(rng.randint(1, 9))) for _k in range(20)):
+            if len(set(chars.lower())) >= 2: add('rectchars', [case, chars], rect_alphabet)
+    # refine_layers: the translated name slice against the real layer list
+    def refined(conv, n0, justify, chars, sp, atm, before):
+        g = mg.mulgrid().rectangular([1.], [1.], [1.] * n0, convention=conv, atmos_type=1, justify=justify, chars=chars, spaces=sp)
+        if atm is not None and atm not in g.layer: g.rename_layer(g.layerlist[0].name, atm)
+        before.append((g.right_justified_names, [l.name for l in g.layerlist], g.layername_length))
+        g.refine_layers([], 2, chars, sp)
+        return [l.name for l in g.layerlist]
+    for conv in range(4):
+        for justify in ('r', 'l'):
+            for chars, sp in ((lo, True), (up, True), ('abc', True), (lo, False), ('aab', True)):
+                for n0 in (1, 2, 3, 5, 23, 24, 50):
+                    for atm_num in (None, n0 + 1, 2 * n0, 2 * n0 + 1, 46, 'zz'):
+                        jf = str.ljust if justify == 'l' else str.rjust
+                        try: atm = None if atm_num is None else ('zz' + 'z' * (geos[conv].layername_length - 2) if atm_num == 'zz' else geos[conv].layer_name_from_number(atm_num, jf, mg.uniqstring(chars), sp))
+                        except mg.NamingConventionError: continue
+                        before = []
+                        try: res = impl(refined, conv, n0, justify, chars, sp, atm, before)
+                        except Exception: continue
+                        if not before: continue
+                        rj, names_in, L = before[0]
+                        out.append(('\t'.join(['reflay'] + [enc(a) for a in [rj, conv, L, names_in, chars, sp, [0] * (2 * n0)]]), res))
+    # fix_block_mapping
+    def fixed_map(m):
+        d = dict(m); mg.fix_block_mapping(d); return list(d.items())
+    for _ in range(400 if not ctx.thorough else 2000):
+        m = {name5(rng.choice(['ab1 5', 'a1 0', 'xy 12'])): name5(rng.choice(['ab1 5', 'c2 7'])) for _k in range(rng.randint(1, 6))}
+        if rng.random() < 0.3:
+            k = next(iter(m)); m[mg.fix_blockname(k)] = name5()      # a key and its repair both present
+        add('fixmap', [m], fixed_map)
     return out
 
 
@@ -334,6 +424,8 @@ def run(ctx):
                 'oracle: fix/unfix laws on names over letters, digits and blanks, all generator integers 1..3000 (thorough 20000) per configuration, rectangular geometries x conventions x atmosphere types x justification x alphabets; '
                 'new_dict_key on dictionaries holding the first m generated names minus random holes (fuel |d|+2); the translated add_layers name slice (fuel 3) against the real layer list for '
                 '0..130 layers (+ 702/703, 1208..1210 where the surface name "atm"/"at" would be generated) x conventions x justify x 6 alphabets x spaces; the per-convention tables; '
+                'round 4: block_name with random block mappings (often holding the plain name); new_node_name / new_column_name on dictionaries with holes (fuel |d|+2); the alphabet of rectangular() read off real node names x case None/l/u/other x mixed-case alphabets; '
+                'the refine_layers name slice (fuel 3) against the real layer list after renaming the atmosphere layer to regenerated / never regenerated names; fix_block_mapping on random mappings incl. a key together with its repair; '
                 'oracle scenarios: rectangular x 4 conventions x case None/l/u x justify x mixed-case / repeating alphabets; edit sequences (rename atmosphere layer to a name the regenerated sequence reaches, '
                 'refine_layers, refine, rename_column, add_layers, write-then-read into a fresh or a used object, block_name with a block mapping, other live geometries) on small grids x conventions x atmosphere types x alphabets and on tests/mulgrid/g1..g7.dat, checked after every step, in shuffled order; call-order and argument-purity checks; '
                 'distinct by the full argument tuple')
@@ -344,7 +436,7 @@ def run(ctx):
     ok = translate(ctx)
     exe = None
     if ok:
-        ctx.coq_build(props=('Props.v', 'Props2.v'))
+        ctx.coq_build(props=('Props.v', 'Props2.v', 'Props3.v'))
         exe = vf.build_driver(ctx)
     if exe: correspond(ctx, exe)
     oracle(ctx)
